@@ -1,8 +1,27 @@
 import Driver.Store
+import NixModel.Store.Frames
+import NixModel.Py.UuidText
+open Lean Nix.Store
 
 namespace Driver.C03
 
-/-- C03 is decided on the structural (HDF5 graph) model: same driver for C02 C03 C04 C05 C12 C20 -/
-def main : IO Unit := Driver.Store.main
+/-- C03 is decided on the structural (HDF5 graph) model: the shared driver of C02 C03 C04 C05 C12 C20,
+extended by the operations only C03's histories use (`Store/Frames.lean`) and by the pure
+`uuid.UUID(str)` acceptance functions (`Py/UuidText.lean`) -/
+def step (g : Graph) (j : Json) : Graph × Json :=
+  match (Driver.jArr j).toList with
+  | [.str "create_frame", pj, nm, .str ty] =>
+    match Driver.Store.parsePath pj, Driver.Store.parseName g nm with
+    | some p, some name => Driver.Store.applyG g (createFrame g p name ty)
+    | _, _ => (g, Driver.bad "args")
+  | [.str "create_mtag_auto", pj, nm, .str ty, .bool ext] =>
+    match Driver.Store.parsePath pj, Driver.Store.parseName g nm with
+    | some p, some name => Driver.Store.applyG g (createMultiTagAuto g p name ty ext)
+    | _, _ => (g, Driver.bad "args")
+  | [.str "is_uuid", .str s] =>
+    (g, Driver.ok (Json.arr #[Json.bool (Nix.Py.uuidAccepts s), Json.bool (pyIsUuid s)]))
+  | _ => Driver.Store.step g j
+
+def main : IO Unit := Driver.loop init step
 
 end Driver.C03
